@@ -20,6 +20,7 @@
 From Coq Require Import List ZArith Bool String.
 From ApiFu Require Val.Values Val.CoerceModel Val.CoerceSpec Val.CoerceCheck.
 From ApiFu Require Import Base.Sexp Cost.CostModel Cost.CostSpec Cost.CostArgs Cost.CostTrace.
+From ApiFu Require Cost.CostArgsProofs.
 Import ListNotations.
 Open Scope string_scope.
 Open Scope Z_scope.
@@ -745,6 +746,56 @@ Definition call_conforms (E : Values.env) (trees : list (anode ctxT)) (o : obs_c
   | _, _ => false
   end.
 
+(** ** the hypotheses of the every-call theorems, evaluated on the request: for a document the REAL
+    validator accepted they must hold of every field selection reachable from the chosen operation
+    (this is the request side of [CostC04.document_bridge]) *)
+Fixpoint fields_of (n : anode ctxT) {struct n} : list (afield ctxT) :=
+  match n with
+  | ANode k kids =>
+      (match k with AField f => [f] | _ => [] end ++
+       (fix go (l : list (anode ctxT)) : list (afield ctxT) :=
+          match l with [] => [] | x :: r => fields_of x ++ go r end) kids)%list
+  end.
+Fixpoint spreads_of (n : anode ctxT) {struct n} : list bytes :=
+  match n with
+  | ANode k kids =>
+      (match k with ASpread x => [x] | _ => [] end ++
+       (fix go (l : list (anode ctxT)) : list bytes :=
+          match l with [] => [] | x :: r => spreads_of x ++ go r end) kids)%list
+  end.
+Fixpoint reach_frags (fuel : nat) (frs : list (bytes * anode ctxT)) (names seen : list bytes) : list bytes :=
+  match fuel with
+  | O => seen
+  | S f =>
+      match filter (fun x => negb (existsb (bytes_eqb x) seen)) names with
+      | [] => seen
+      | fresh =>
+          reach_frags f frs
+            (flat_map (fun x => match alookup_last ctxT frs x with Some d => spreads_of d | None => [] end) fresh)
+            (seen ++ fresh)%list
+      end
+  end.
+Definition reachable_fields (frs : list (bytes * anode ctxT)) (body : anode ctxT) : list (afield ctxT) :=
+  (fields_of body ++
+   flat_map (fun x => match alookup_last ctxT frs x with Some d => fields_of d | None => [] end)
+            (reach_frags (S (List.length frs)) frs (spreads_of body) []))%list.
+
+Definition field_facts (E : Values.env) (defs : list Values.vardef) (f : afield ctxT) : bool :=
+  negb (CoerceSpec.dup_names (map fst (af_args f)))
+  && forallb (fun al => CoerceSpec.lit_nodup (snd al)) (af_args f)
+  && negb (CoerceModel.has_dup (map fst (af_argdefs f)))
+  && forallb (fun ad => CoerceSpec.default_ok E (snd ad)) (af_argdefs f)
+  && CostArgsProofs.field_usage_ok ctxT E defs f.
+
+Definition request_facts (E : Values.env) (defs : list Values.vardef) (frs : list (bytes * anode ctxT)) (body : anode ctxT) : bool :=
+  CoerceSpec.env_ok E
+  && negb (CoerceModel.has_dup (map Values.vd_name defs))
+  && forallb (fun d => match Values.vd_default d with
+                       | Some l => CoerceSpec.lit_nodup l && match CoerceModel.lit_vars l with [] => true | _ => false end
+                       | None => true
+                       end) defs
+  && forallb (field_facts E defs) (reachable_fields frs body).
+
 Definition raw_name (x : option bytes * list vardef * sexp * list Values.vardef) : option bytes := fst (fst (fst x)).
 Definition raw_defs (x : option bytes * list vardef * sexp * list Values.vardef) : list vardef := snd (fst (fst x)).
 Definition raw_body (x : option bytes * list vardef * sexp * list Values.vardef) : sexp := snd (fst x).
@@ -836,6 +887,11 @@ Definition check (c : sexp) : sexp :=
                   | Some v => v
                   | None =>
                       if negb (forallb conn_agrees conns) then v_mismatch "connection-edge-count" []
+                      else if (std =? 0) && match chosen_op ctxT aops opname with
+                                             | Some ao => negb (request_facts E (ao_vardefs ao) afrs (ao_body ao))
+                                             | None => false
+                                             end
+                      then v_mismatch "validated-document-violates-theorem-hypotheses" []
                       else if match obs_calls, o with
                               | Some cs, Obs _ _ _ _ => negb (calls_match (snd mt0) cs)
                               | _, _ => false
@@ -848,6 +904,8 @@ Definition check (c : sexp) : sexp :=
                               ++ (match conns with [] => [] | _ => ["connections"] end)
                               ++ (if existsb (sexp_exists (is_field_with is_gen)) body then ["list-or-object-argument"] else [])
                               ++ (match xvars with [] => [] | _ => ["list-or-object-variable-value-given"] end)
+                              ++ (if (std =? 0) && match chosen_op ctxT aops opname with Some _ => true | None => false end
+                                  then ["theorem-hypotheses-hold"] else [])
                               ++ (match field1 "timed" l with
                                   | Some b => match as_bool b with Some true => ["time-based-connection"] | _ => [] end
                                   | None => []
